@@ -26,6 +26,22 @@ def sh(cmd):
 
 
 res = dict(mutation=os.path.basename(mut), demo_dest=dest, run=rx)
+# the private copy of /verif is taken FIRST (a consistent snapshot even when /verif is edited later),
+# then the job waits for one of SV_SLOTS slots so that many jobs can be queued at once
+sh(f"rsync -a --exclude .git --exclude replays --exclude evidence --exclude seeded {VERIF}/ {VC}/ && mkdir -p {VC}/replays {VC}/evidence")
+import fcntl, time
+_slot = None
+while _slot is None:
+    for i in range(int(os.environ.get("SV_SLOTS", "3"))):
+        f = open(f"/tmp/sv_slot_{i}", "w")
+        try:
+            fcntl.flock(f, fcntl.LOCK_EX | fcntl.LOCK_NB)
+            _slot = f
+            break
+        except OSError:
+            f.close()
+    if _slot is None:
+        time.sleep(2)
 sh(f"git -C /repo worktree add -q --detach {WT} HEAD")
 try:
     demos = [f for f in os.listdir(mut) if f.endswith("_test.go")]
@@ -50,7 +66,6 @@ try:
     res["suite_patched"] = "PASS" if out.strip() == "" else "FAIL " + out[:400]
     print("existing suite with the change:", res["suite_patched"])
     sh(f"rm -f {WT}/data.db*")
-    sh(f"rsync -a --exclude .git --exclude replays --exclude evidence --exclude seeded {VERIF}/ {VC}/ && mkdir -p {VC}/replays {VC}/evidence")
     res["checks"] = {}
     for p in props:
         rc, out = sh(f"cd {VC} && VERIF_REPO={WT} ./check {p} --tier quick")
